@@ -544,4 +544,14 @@ def run(ctx):
     ctx.guarded("C16.auth", rule_auth, ctx)
     ctx.guarded("C16.iface", rule_iface, ctx)
     ctx.guarded("C16.reset", rule_reset, ctx)
+    # options switched off must stay off: the property table's semantics (C18.prim), adopted
+    from .c18 import rule_prim
+    ctx.guarded("C16.iface", rule_prim, ctx, "C16.iface", ("prop",))
+    # a failed handshake must reach the finish callback so that the failure is delivered and the connection closed (C04.finish), adopted
+    from . import c04
+    from ..report import Ctx
+    scratch = Ctx(ctx.repo, "C04", ctx.tier)
+    scratch.rule("C04.finish", "", 0)
+    ctx.guarded("C16.auth", c04.rule_finish, scratch)
+    ctx.adopt(scratch, {"C04.finish": "C16.auth"})
     ctx.guarded("C16.ping", rule_ping, ctx, ctx.tier)
